@@ -548,6 +548,8 @@ bool Parser::parse_patch_header(Patch& patch, PatchHeaderInfo& header_info, int 
             }
 
             parser.parse_git_header_name(patch, strip);
+            // Make sure to always advance past this line, even if nothing else follows it for this patch.
+            header_info.lines_till_first_hunk = lines + 1;
             is_git_patch = true;
             patch.format = Format::Unified;
             continue;
